@@ -124,8 +124,12 @@ func parseECPrivateKey(namedCurveOID *asn1.ObjectIdentifier, der []byte) (key *e
 
 	k := new(big.Int).SetBytes(privKey.PrivateKey)
 	curveOrder := curve.Params().N
-	if k.Cmp(curveOrder) >= 0 {
+	if k.Sign() == 0 || k.Cmp(curveOrder) >= 0 {
 		return nil, errors.New("x509: invalid elliptic curve private key value")
+	}
+	if curve == sm2.P256() && new(big.Int).Add(k, big.NewInt(1)).Cmp(curveOrder) == 0 {
+		// GB/T 32918.1-2016: an SM2 private key is in [1, n-2]
+		return nil, errors.New("x509: invalid SM2 private key value")
 	}
 	priv := new(ecdsa.PrivateKey)
 	priv.Curve = curve
